@@ -314,7 +314,7 @@ void sqf::fileio::impl_default::add_pbo_mapping(rvutils::pbo::pbofile& pbo)
         {
             ++path_iter;
             std::unordered_map<std::string, std::shared_ptr<path_element>>::iterator nextnav;
-            while ((nextnav = nav->second->next.find(path_iter->string())) != nav->second->next.end() && path_iter != file_path.end())
+            while (path_iter != file_path.end() && (nextnav = nav->second->next.find(path_iter->string())) != nav->second->next.end())
             {
                 nav = nextnav;
                 path_iter++;
